@@ -30,6 +30,7 @@ type recorder struct {
 	offs    map[string]int64 // bytes written per path since its last truncating open
 	pending *proto.Fault     // kill-after waiting for write-partial
 	serial  int              // generator instance serials
+	cancel  func()           // cancels the context handed to Execute
 }
 
 var rec = &recorder{}
@@ -251,6 +252,15 @@ func (r *recorder) osEvent(op, path string, n int) (int, error) {
 		}
 		r.mu.Unlock()
 		return 0, nil
+	case do == "cancel":
+		if r.cancel != nil {
+			r.cancel()
+		}
+		if op == "write" {
+			r.offs[rel] += int64(n)
+		}
+		r.mu.Unlock()
+		return 0, nil
 	case strings.HasPrefix(do, "errno:"):
 		e := errnos[do[len("errno:"):]]
 		if e == 0 {
@@ -337,6 +347,10 @@ func (r *recorder) genEvent(ev proto.Event) genAction {
 		kill()
 	case f.Do == "edit":
 		r.externalEdit(f)
+	case f.Do == "cancel":
+		if r.cancel != nil {
+			r.cancel()
+		}
 	case f.Do == "gen-error":
 		return actGenError
 	case f.Do == "gen-unparseable":
